@@ -600,6 +600,14 @@ func analyseParserLoop(c *core.Ctx, want map[string]bool) {
 					report("C12-R3", "leak", c.P.Pos(in.Pos()), "the record's notes point at %s, a variable that lives across records: notes of earlier records leak into later ones", vp.Loc)
 				}
 			}
+			// C12-R3, second form (DESIGN 6.20): what is stored is a reference carried round the scan loop in a local that
+			// the loop only ever initialises lazily (made when it is still nil) and never renews: from the first record
+			// with notes on, every record is given the same object.
+			if sv, ok := val.(absint.Sym); ok && strings.HasPrefix(sv.Name, "j:r/") && strings.HasSuffix(p.Loc, "·Metadata") {
+				if phi := loopPhiNamed(loopHead, strings.TrimPrefix(sv.Name, "j:r/")); phi != nil && onlyLazilyInitialised(phi) {
+					report("C12-R3", "carried", c.P.Pos(in.Pos()), "the record's notes are set to a reference that a local carries round the scan loop (%s) and that the loop only makes when it is still nil and never renews: every record after the first with notes is given the same object, so notes of earlier records leak into later ones", phi.Name())
+				}
+			}
 		}
 	}
 	x.Hooks.BackEdge = func(x *absint.Exec, s *absint.State, f *absint.Frame, h *ssa.BasicBlock) {
@@ -1123,4 +1131,86 @@ func usedAsSliceBound(v ssa.Value, depth int) bool {
 		}
 	}
 	return false
+}
+
+// loopPhiNamed: the φ of that register name at the head of the loop.
+func loopPhiNamed(head *ssa.BasicBlock, name string) *ssa.Phi {
+	for _, in := range head.Instrs {
+		if phi, ok := in.(*ssa.Phi); ok && phi.Name() == name {
+			return phi
+		}
+	}
+	return nil
+}
+
+// onlyLazilyInitialised: phi is a loop-carried reference whose values coming round the back edges are, through φs
+// only, phi itself or allocations made in the branch taken when the carried value is nil — and there is at least one
+// such allocation. A nil constant, a call result or an allocation made anywhere else means the loop may renew the
+// local, and the answer is false (the rule then says nothing).
+func onlyLazilyInitialised(phi *ssa.Phi) bool {
+	if _, ok := phi.Type().Underlying().(*types.Pointer); !ok {
+		return false
+	}
+	head := phi.Block()
+	closure := map[ssa.Value]bool{phi: true}
+	var leaves []ssa.Value
+	var walk func(v ssa.Value)
+	walk = func(v ssa.Value) {
+		if closure[v] {
+			return
+		}
+		if q, ok := v.(*ssa.Phi); ok {
+			closure[q] = true
+			for _, e := range q.Edges {
+				walk(e)
+			}
+			return
+		}
+		leaves = append(leaves, v)
+	}
+	for i, e := range phi.Edges {
+		if head.Dominates(head.Preds[i]) { // a back edge
+			walk(e)
+		}
+	}
+	if len(leaves) == 0 {
+		return false
+	}
+	for _, l := range leaves {
+		al, ok := l.(*ssa.Alloc)
+		if !ok || !head.Dominates(al.Block()) {
+			return false
+		}
+		b := al.Block()
+		if len(b.Preds) != 1 {
+			return false
+		}
+		cond, ok := b.Preds[0].Instrs[len(b.Preds[0].Instrs)-1].(*ssa.If)
+		if !ok {
+			return false
+		}
+		bin, ok := cond.Cond.(*ssa.BinOp)
+		if !ok {
+			return false
+		}
+		isNil := func(v ssa.Value) bool { k, ok := v.(*ssa.Const); return ok && k.IsNil() }
+		var tested ssa.Value
+		switch {
+		case isNil(bin.Y):
+			tested = bin.X
+		case isNil(bin.X):
+			tested = bin.Y
+		default:
+			return false
+		}
+		if !closure[tested] {
+			return false
+		}
+		// the allocation is on the side where the carried value is nil
+		onTrue := b.Preds[0].Succs[0] == b
+		if !(bin.Op == token.EQL && onTrue) && !(bin.Op == token.NEQ && !onTrue) {
+			return false
+		}
+	}
+	return true
 }
